@@ -442,6 +442,7 @@ fn classify(got: &Option<HitObject>, want: &Option<HitObject>) -> &'static str {
 }
 
 fn check_line(line: &str, ctxs: &[usize], modes: &[GameMode], acc: &mut Acc) {
+    let _g = crate::engine::watch::guard("line", |s| s.push_str(line));
     for &ci in ctxs {
         let ctx = CONTEXTS[ci];
         let prev = prev_after(ctx);
